@@ -278,6 +278,7 @@ class Interp:
         fr = Frame(func, callsite)
         self.frames.append(fr)
         saved_env = st.env
+        saved_ctrl, saved_preds = st.ctrl, st.preds
         st.env = dict(args)
         a = func.node.args
         # defaults for unbound params
@@ -314,6 +315,15 @@ class Interp:
             val = v if val is None else join(val, v)
             out = s if out is None else out.merge(s)
         out.env = saved_env
+        # control dependence inside the callee does not extend to the caller's continuation
+        # (the returned value itself carries the dependence)
+        if callsite is not None:
+            extra = frozenset()
+            for v, s in rets:
+                extra |= (s.ctrl - saved_ctrl)
+            if extra and val is not None:
+                val = val.with_(dep=val.dep | extra, cfg=False, cx=None)
+            out.ctrl, out.preds = saved_ctrl, saved_preds
         return val, out
 
     # ------------------------------------------------------------------ statements
@@ -737,7 +747,7 @@ class Interp:
         if v.kind == "bool" and v.sym in (sp.true, sp.false):
             return bool(v.sym)
         if v.kind == "num" and v.sym is not None and v.sym.is_number and v.cfg:
-            return bool(v.sym != 0)
+            return bool(not v.sym.is_zero)
         if v.kind == "none":
             return False
         if v.kind == "str" and v.tmpl is not None and v.cfg and "<" not in v.tmpl:
@@ -1474,14 +1484,14 @@ class Interp:
     def mesh_syms(self, cx):
         suf = {"surface": "", "surfaces[i]": "_i", "surfaces[0]": "_0", "sections[i]": "_si", "sections[0]": "_s0", "section": "_s"}.get(cx)
         if suf is None:
-            suf = "_" + "".join(ch if ch.isalnum() else "_" for ch in cx)
+            suf = "_" + "".join(ch if ch.isalnum() else "_" for ch in (cx or "unk"))
         return sp.Symbol("nx" + suf, integer=True, positive=True), sp.Symbol("ny" + suf, integer=True, positive=True)
 
     def cfg_value(self, b, key, n, st, kval=None):
         if key is None:
             return Val("cfgval", cfg=True, cx=None, obj=("cfg", b.cx, "?"), view="whole")
-        cx = "%s[%r]" % (b.cx, key)
-        self.emit("cfg_read", n, st, src=b.cx, key=key)
+        cx = "%s[%r]" % (b.cx or "cfg?", key)
+        self.emit("cfg_read", n, st, src=b.cx or "cfg?", key=key)
         if key == "name":
             return Val("str", tmpl="<%s.name>" % b.cx, cfg=True, cx=cx)
         if key == "mesh":
@@ -1590,7 +1600,7 @@ class Interp:
             if v.kind == "bool" and v.sym in (sp.true, sp.false):
                 return boolv(not bool(v.sym))
             if v.kind == "num" and v.sym is not None and v.sym.is_number and v.cfg:
-                return boolv(v.sym == 0)
+                return boolv(bool(v.sym.is_zero))
             return Val("bool", dep=v.dep, cfg=v.cfg, cx=("not (%s)" % v.cx) if v.cx else None, extra=v.extra if False else None)
         if isinstance(n.op, ast.USub):
             return v.with_(sym=(-v.sym) if v.sym is not None else None, cx=("-%s" % v.cx) if v.cx else None, obj=None, view=None, extra=("lit", -v.extra[1]) if (isinstance(v.extra, tuple) and v.extra and v.extra[0] == "lit") else None)
@@ -1657,7 +1667,8 @@ class Interp:
         if left.kind == "num" and right.kind == "num" and left.sym is not None and right.sym is not None and left.cfg and right.cfg:
             d = sp.expand(left.sym - right.sym)
             if d.is_number:
-                res = {"==": d == 0, "!=": d != 0, "<": d < 0, "<=": d <= 0, ">": d > 0, ">=": d >= 0}.get(o)
+                z = bool(d.is_zero)
+                res = {"==": z, "!=": not z, "<": d < 0, "<=": z or d < 0, ">": d > 0, ">=": z or d > 0}.get(o)
                 if res is not None:
                     return boolv(bool(res))
             elif not any(s.name.startswith(("OFF_", "TOT_")) for s in d.free_symbols):
@@ -1829,7 +1840,9 @@ class Interp:
             bind[k] = v
         self.emit("call", n, st, callee=func, args=args, kwargs=kwargs, inlined=True)
         saved = st.env
+        saved_ctrl, saved_preds = st.ctrl, st.preds
         val, out = self.call_function(func, bind, st, n)
+        st.ctrl, st.preds = saved_ctrl, saved_preds
         if out is None:
             self._dead = True
             st.env = saved
